@@ -290,6 +290,30 @@ theorem C04_scalar_timespan_repaired (cfg : Cfg) (sfh : Bool) (n : Int) (h1 : I6
   simp only [dtype, ptype]
   rw [asg_plain_r cfg sfh _ _ rfl]; simp [Ty.isAny, sameNullary, asgRecv, hsc]
 
+/-! ### Timestamp (extension round: Timestamp[min,max] inside the model, instants counted in nanoseconds since 0001-01-01T00:00:00Z) -/
+/-- Scalar, and RichData through it, accept the detailed type of every Timestamp value inside the default Timestamp type (from year 1 on) -/
+theorem C04_scalar_timestamp (cfg : Cfg) (sfh : Bool) (n : Int) (h1 : tstampAll.lo ≤ n) (h2 : n ≤ tstampAll.hi) :
+    inst cfg sfh .scalar (.tstamp n) = true ∧ asg cfg sfh .scalar (dtype cfg sfh (.tstamp n)) = true ∧
+    asg cfg sfh .richData (dtype cfg sfh (.tstamp n)) = true := by
+  have hs : asg cfg sfh (.tstamp tstampAll) (.tstamp ⟨n, n⟩) = true := by
+    simp [asg, asgRecv, sameNullary, Ty.isAny, Rng.sub]; exact ⟨h1, h2⟩
+  have hsc : asg cfg sfh .scalar (.tstamp ⟨n, n⟩) = true := by
+    rw [asg_plain_r cfg sfh _ _ rfl]; simp [Ty.isAny, sameNullary, asgRecv, hs]
+  refine ⟨by simp [inst, isScalarVal], by simpa [dtype, ptype] using hsc, ?_⟩
+  simp only [dtype, ptype]
+  rw [asg_plain_r cfg sfh _ _ rfl]; simp [Ty.isAny, sameNullary, asgRecv, hsc]
+
+/-- OBSERVATION (defect candidate, work/defect-C04-timestamp-before-year1.md; model and implementation agree): an instant BEFORE year 1 is a
+    Timestamp value (`time.Time` holds it, the text format parses it) that Scalar admits as an instance while rejecting its detailed type —
+    the default Timestamp type starts at `MinTime` = year 1 — so the fourth law fails there.  The generators keep to the years 0001..9999. -/
+theorem C04_accepts_complete_fails_timestamp_before_year1 :
+    inst idCfg4 true .scalar (.tstamp (-5000000000)) = true ∧
+    asg idCfg4 true .scalar (dtype idCfg4 true (.tstamp (-5000000000))) = false ∧
+    inst idCfg4 true (.tstamp tstampAll) (.tstamp (-5000000000)) = false := by
+  refine ⟨by simp [inst, isScalarVal], ?_, ?_⟩
+  · simp [dtype, ptype, asg, asgRecv, sameNullary, isStringFamily, Rng.sub, tstampAll]
+  · simp [inst, Rng.contains, tstampAll]
+
 theorem C04_accepts_complete_fails_object :
     inst idCfg4 true (.object none) (.typ .str) = true ∧ asg idCfg4 true (.object none) (dtype idCfg4 true (.typ .str)) = false := by
   constructor
